@@ -16,6 +16,7 @@ func main() {
 	nops := flag.Int("nops", 100, "gen: operations per sequence")
 	profile := flag.String("profile", "generic", "gen: generator profile")
 	statsFile := flag.String("stats", "", "gen: write generator statistics (JSON) here")
+	repeat := flag.Int("repeat", 1, "replay: run the history this many times in one process")
 	flag.Parse()
 
 	out := os.Stdout
@@ -33,6 +34,9 @@ func main() {
 	h := newH(w)
 
 	switch *mode {
+	case "conc":
+		w.Flush()
+		os.Exit(runConc(*seed, *nseq))
 	case "replay":
 		in := os.Stdin
 		if *opsFile != "" {
@@ -46,8 +50,18 @@ func main() {
 		}
 		sc := bufio.NewScanner(in)
 		sc.Buffer(make([]byte, 1<<20), 1<<24)
+		var lines []string
 		for sc.Scan() {
+			lines = append(lines, sc.Text())
 			h.Step(sc.Text())
+		}
+		// -repeat n: run the same history again on fresh worlds in this process (C12)
+		for r := 1; r < *repeat; r++ {
+			fmt.Fprintf(w, "=== repeat %d\n", r)
+			h2 := newH(w)
+			for _, l := range lines {
+				h2.Step(l)
+			}
 		}
 	case "gen":
 		if *opsFile == "" {
